@@ -67,7 +67,42 @@ OPTION_DELTAS = [
 ]
 
 
+def _budget_boundary_case(rng):
+    """Fractional widths whose required width - summed in position order, as a float - is exactly the density budget: the
+    layering must not depend on the order in which the caller lists the labels (float sums do)."""
+    n = rng.choice([3, 4, 5, 7])
+    ws = [rng.choice([33.3, 21.7, 14.9, 10.1, 7.3, 0.1, 41.6]) for _ in range(n)]
+    pos = sorted(rng.sample([30.0, 80.0, 125.0, 160.0, 201.5, 260.0, 333.0, 410.0], n))
+    sp = rng.choice([3, 0.1, 1.7])
+    total = 0
+    for w in ws:  # position order
+        total += w + sp
+    total -= sp
+    labels = [{"pos": p, "w": w} for p, w in zip(pos, ws)]
+
+    def fsum(order):
+        t = 0
+        for l in order:
+            t += l["w"] + sp
+        return t - sp
+
+    for _ in range(30):  # an input order whose float sum differs from the position-order sum (if the widths allow one)
+        rng.shuffle(labels)
+        if fsum(labels) != total:
+            break
+    import math
+
+    # the budget is the position-order sum itself, or one unit in the last place below it, or the input-order sum
+    budget = rng.choice([total, math.nextafter(total, 0), fsum(labels), min(total, fsum(labels))])
+    opts = {"nodeSpacing": sp, "minPos": 0, "maxPos": budget, "density": 1, "algorithm": rng.choice(["overlap", "simple"]), "stubWidth": 1}
+    return labels, opts
+
+
 def gen_history(rng):
+    if rng.random() < 0.06:
+        labelsA, opts = _budget_boundary_case(rng)
+        ops = [["nodes", "A", "fresh"], ["compute"], ["permute-in-place"], ["compute"], ["nodes", "A", "permuted"], ["compute"], ["permute-in-place"], ["compute"]]
+        return {"labelsA": labelsA, "labelsB": labelsA[:2], "options": opts, "ops": ops, "stale_options": {"algorithm": "none"}, "perm_seed": rng.randrange(10**6), "budget_boundary": True}
     labelsA, opts, tag = WL.gen_case(rng, max_n=60)
     labelsA = proviso(labelsA)
     labelsB = proviso(WL.gen_case(rng, max_n=30)[0])
@@ -265,7 +300,9 @@ def run_history(ctx, mon, h):
                 final_nontrivial = any(li > 0 for v in got.values() for li, _ in v) or any(p != k[0] for k, v in got.items() for _, p in v)
     except Exception as e:
         probs.append({"raised": "%s: %s" % (type(e).__name__, e)})
-    primary = next((x for x in ("edited-in-place", "stale-nodes", "permutation", "option-change", "recompute", "second-label-set") if x in feats), "plain")
+    if h.get("budget_boundary"):
+        feats.add("required-width-exactly-at-the-budget")
+    primary = next((x for x in ("required-width-exactly-at-the-budget", "edited-in-place", "stale-nodes", "permutation", "option-change", "recompute", "second-label-set") if x in feats), "plain")
     if probs:
         ctx.judge(primary, VIOLATED, h, finding=probs, key="history-dependent" if "raised" not in probs[0] else "raised")
     else:
